@@ -455,10 +455,16 @@ Section Theorems.
     core_append cr f batch c w = (c, w, Err NotWritable).
   Proof. intros H. unfold core_append, mbind, get_core. rewrite H. reflexivity. Qed.
 
-  Theorem make_read_only_noop c w :
-    kp_secret (c_keypair c) = None ->
-    core_make_read_only cr c w = (c, w, Ok false).
-  Proof. intros H. unfold core_make_read_only, mbind, get_core. rewrite H. reflexivity. Qed.
+  (* make_read_only reports whether the instance was writable. (Since the repair of finding D25 the call rewrites both
+     header slots also on an instance that is already read-only; that a second call changes no observation is proved
+     from the disk invariant in ReadOnly.v.) *)
+  Theorem make_read_only_result c w c' w' b :
+    core_make_read_only cr c w = (c', w', Ok b) ->
+    b = match kp_secret (c_keypair c) with Some _ => true | None => false end.
+  Proof.
+    unfold core_make_read_only. rewrite mbind_get_core. cbv zeta. intros H.
+    mstep H; prim_inv Hm. mstep H; prim_inv Hm. mstep H. unfold ret in H. injection H as _ _ E. symmetry. exact E.
+  Qed.
 
 (* ====================================================================================== *)
 (* 5. C04: a refused proof leaves core, disk, journal and events untouched                 *)
@@ -655,12 +661,11 @@ Section Theorems.
 (* 3-4. C12: make_read_only erases the secret key and never looks at it                     *)
 (* ====================================================================================== *)
 
-  Theorem make_read_only_erases c w c' w' r sk :
-    kp_secret (c_keypair c) = Some sk ->
+  Theorem make_read_only_erases_any c w c' w' r :
     core_make_read_only cr c w = (c', w', r) ->
     kp_secret (c_keypair c') = None /\ kp_secret (hd_keypair (c_header c')) = None.
   Proof.
-    intros Hs. unfold core_make_read_only. rewrite mbind_get_core, Hs. intros H.
+    unfold core_make_read_only. rewrite mbind_get_core. cbv zeta. intros H.
     mstep H; prim_inv Hm. mstep H; prim_inv Hm.
     assert (K : forall c1 w1 r1,
                flush_all cr true
@@ -678,6 +683,12 @@ Section Theorems.
     - eapply K; eassumption.
     - eapply K; eassumption.
   Qed.
+
+  Theorem make_read_only_erases c w c' w' r sk :
+    kp_secret (c_keypair c) = Some sk ->
+    core_make_read_only cr c w = (c', w', r) ->
+    kp_secret (c_keypair c') = None /\ kp_secret (hd_keypair (c_header c')) = None.
+  Proof. intros _. apply make_read_only_erases_any. Qed.
 
   (* replace the secret key, both in the core's key pair and in the header's copy *)
   Definition with_secret (c : core) (s : option bytes) : core :=
@@ -1040,7 +1051,8 @@ Proof. vm_compute. split; reflexivity. Qed.
 
 (* ====================================================================================== *)
 Print Assumptions append_not_writable.
-Print Assumptions make_read_only_noop.
+Print Assumptions make_read_only_result.
+Print Assumptions make_read_only_erases_any.
 Print Assumptions apply_fork_mismatch.
 Print Assumptions apply_verify_error.
 Print Assumptions apply_verify_panic.
